@@ -293,9 +293,13 @@ class TranslationParserInit(Contract):
         V.oblige("post:ascending", z3.Implies(z3.And(0 <= i, i <= j, j < nz), g(i) <= g(j)))
         V.forall("post:non-negative", nz, lambda m: g(m) >= 0)
         m1 = z3.Int("m_neg")
+        sorts = ctx.__dict__.get("sorts", [])
+        if sorts:
+            # instantiation hint: the position the m1-th intended value was sorted to (brings the sort contract's link
+            # fact for that position into the hypotheses, so that no model-based instantiation is needed)
+            g(sorts[-1]["inv"](m1))
         V.oblige("post:accepted-only-if-all-distances-non-negative", z3.Implies(z3.And(m1 >= 0, m1 < nz), intended(m1) >= 0))
         # values: a permutation of 10 x intended
-        sorts = ctx.__dict__.get("sorts", [])
         cn = conc(n) if not isinstance(n, int) else n
         if sorts:
             perm, inv = sorts[-1]["perm"], sorts[-1]["inv"]
